@@ -39,8 +39,8 @@ def make_schedule(p, length):
     return dict(workers=workers, cuts=cuts, order=order, tids=tids, mode=p["mode"] % 2)
 
 
-def run_entry(e, n, a, b, self_masked, rhs_full=False):
-    out, self_elems, arg_elems = evaluate(e, n, a, b, self_masked, rhs_full)
+def run_entry(e, n, a, b, self_masked, rhs_full=False, self_strided=False, arg_strided=False):
+    out, self_elems, arg_elems = evaluate(e, n, a, b, self_masked, rhs_full, self_strided, arg_strided)
     tag = e["subject"].partition(":")[0]
     if e["kind"] == "array":
         got = out["result"]
@@ -58,6 +58,9 @@ def interp(p):
     tag, _, what = e["subject"].partition(":")
     self_masked = bool(p.get("self_masked")) and tag == "method" and e.get("self_masked_ok", False)
     rhs_full = bool(self_masked and e.get("rhs_full_ok") and p.get("rhs_full", 1))
+    # layout of the subject / the array arguments: member views of aggregate arrays (stride 3 or 2)
+    self_strided = bool(p.get("strided", 0) & 1) and tag == "method" and not self_masked and what in STRIDED
+    arg_strided = bool(p.get("strided", 0) & 2) and not rhs_full and any(k.startswith("arr:") and k[4:] in STRIDED for k in e["args"])
     sched = make_schedule(p["sched"], n)
     where = "%s %s%r n=%d" % (e["subject"], e["name"], tuple(e["args"]), n)
     labels = set()
@@ -66,7 +69,7 @@ def interp(p):
     # (1) no pool
     POOL.remove()
     try:
-        r0, self_elems, arg_elems, out0 = run_entry(e, n, a, b, self_masked, rhs_full)
+        r0, self_elems, arg_elems, out0 = run_entry(e, n, a, b, self_masked, rhs_full, self_strided, arg_strided)
     except Exception as ex:
         raise Violation("catalogue/entry-raises", "%s raised %r without a pool (it did not on the unchanged tree)" % (where, ex))
     if e["kind"] == "array" and (r0 is None or len(r0) != n):
@@ -76,7 +79,7 @@ def interp(p):
     POOL.schedule(sched["cuts"], sched["order"], sched["tids"], sched["mode"])
     POOL.reset_stats()
     try:
-        r1, _se, _ae, _o = run_entry(e, n, a, b, self_masked, rhs_full)
+        r1, _se, _ae, _o = run_entry(e, n, a, b, self_masked, rhs_full, self_strided, arg_strided)
     except Exception as ex:
         POOL.remove()
         raise Violation("schedule/raises-under-pool", "%s raised %r under schedule %r" % (where, ex, sched))
@@ -86,6 +89,13 @@ def interp(p):
         diff = [i for i in range(min(len(r0), len(r1))) if r0[i] != r1[i]] if isinstance(r0, list) and isinstance(r1, list) else []
         raise Violation("schedule/result-depends-on-partition", "%s: result under schedule cuts=%r order=%r tids=%r mode=%d workers=%d differs from the no-pool result at positions %r (e.g. %r vs %r)" % (
             where, [c * n >> 16 for c in sched["cuts"]], sched["order"], sched["tids"], sched["mode"], sched["workers"], diff[:8], r1[diff[0]] if diff else r1, r0[diff[0]] if diff else r0))
+    for o_ in (out0, _o):
+        if o_.get("strided") and not o_.get("neighbours_intact", True):
+            raise Violation("strided-subject/neighbouring-members-modified", "%s: the subject is the member view of an aggregate array; the operation changed other members of the parent's elements" % where)
+    if self_strided:
+        labels.add("strided_subject")
+    if arg_strided:
+        labels.add("strided_argument")
     dispatched = stats[0] > 0
     if dispatched:
         labels.add("dispatched")
@@ -163,7 +173,7 @@ def interp(p):
 
 I = st.integers
 SCHED = st.fixed_dictionaries(dict(cuts=st.lists(I(0, 65536), min_size=0, max_size=7), order_salt=I(0, 10**6), tid_salt=I(0, 10**6), mode=I(0, 1), workers=I(0, 5)))
-PROG = st.fixed_dictionaries(dict(entry=I(0, max(len(CAT) - 1, 0)), len=st.sampled_from([3, 4, 5, 6, 7, 8, 8, 7, 5, 0, 1, 2]), a=I(0, 50), b=I(0, 50), self_masked=st.booleans(), mismatch=I(0, 3), sched=SCHED))
+PROG = st.fixed_dictionaries(dict(entry=I(0, max(len(CAT) - 1, 0)), len=st.sampled_from([3, 4, 5, 6, 7, 8, 8, 7, 5, 0, 1, 2]), a=I(0, 50), b=I(0, 50), self_masked=st.booleans(), strided=I(0, 3), mismatch=I(0, 3), sched=SCHED))
 
 
 def sweep_items(tier, seed):
@@ -174,7 +184,7 @@ def sweep_items(tier, seed):
         for li in ((2, 5, 7) if tier != "thorough" else (0, 2, 3, 5, 7, 8)):
             for r in range(reps):
                 s = (idx * 31 + li * 7 + r * 13 + seed) % 1000
-                items.append(dict(entry=idx, len=li, a=(s + 1) % 17, b=(s * 3) % 23, self_masked=(s % 3 == 0), mismatch=1 + s % 3,
+                items.append(dict(entry=idx, len=li, a=(s + 1) % 17, b=(s * 3) % 23, self_masked=(s % 3 == 0), strided=(1 + (s // 3) % 3) if (li + r) % 3 == 1 else 0, mismatch=1 + s % 3,
                                   sched=dict(cuts=[(s * 977 + 13000 * q) % 65537 for q in range(1 + s % 5)], order_salt=s + 1, tid_salt=s + 2, mode=(s + r) % 2, workers=s % 6)))
     return items
 
@@ -310,10 +320,24 @@ def ctor_items(tier, seed):
     return items
 
 
-GROUPS = [
+def race_items(tier, seed):
+    """every catalogue entry and array constructor once (thorough: 3 schedules), above the dispatch threshold, under a
+    truly concurrent schedule with >= 3 worker threads and >= 4 chunks; argument values repeat with period 9"""
+    reps = 3 if tier == "thorough" else 1
+    items = []
+    for idx in range(len(CAT)):
+        for r in range(reps):
+            s = (idx * 29 + r * 101 + seed) % 1000
+            items.append(dict(entry=idx, len=7 if tier != "thorough" else 7 + (r + idx) % 2, a=(s + 1) % 17, b=(s * 3) % 23, self_masked=(s % 3 == 0), strided=(s // 3) % 4, mismatch=0,
+                              sched=dict(cuts=[(s * 977 + 9000 + 13000 * q) % 65537 for q in range(3 + s % 4)], order_salt=s + 1, tid_salt=s + 2, mode=1, workers=2 + s % 4)))
+    return items
+
+
+RACE_PASS = bool(os.environ.get("VP_RACE_PASS"))
+GROUPS = [] if RACE_PASS else [
     Group("catalogue_sweep", None, interp, 0, 0,
-          "complete sweep: every one of the %d catalogued vectorised entry points (array methods/operators x argument-kind combinations array/scalar/masked, module functions, scalar-object methods taking arrays) x lengths {2, 201, 257} (thorough: {0,2,199,201,257,1000}) x generated schedules; non-trivial = length > 200, dispatched to the pool, >= 2 non-empty chunks executed out of order" % len(CAT),
-          required_labels=["dispatched", "concurrent", "scalar_oracle_exact", "mismatch_raises", "method", "func", "scalar", "inplace", "masked_subject", "masked_subject_unmasked_length_rhs", "scalar_fold_oracle"], items=sweep_items),
+          "complete sweep: every one of the %d catalogued vectorised entry points (array methods/operators x argument-kind combinations array/scalar/masked, module functions, scalar-object methods taking arrays) x lengths {2, 201, 257} (thorough: {0,2,199,201,257,1000}) x generated schedules; one length per entry (thorough: two) runs with the subject and/or the array arguments laid out as member views of aggregate arrays (V3fArray.y, C3cArray.g, Box3fArray.max: stride 3 or 2), where other members of the parent's elements must stay untouched; non-trivial = length > 200, dispatched to the pool, >= 2 non-empty chunks executed out of order" % len(CAT),
+          required_labels=["dispatched", "concurrent", "scalar_oracle_exact", "mismatch_raises", "method", "func", "scalar", "inplace", "masked_subject", "masked_subject_unmasked_length_rhs", "scalar_fold_oracle", "strided_subject", "strided_argument"], items=sweep_items),
     Group("schedules", PROG, interp, 2400, 40000,
           "random (entry, length in {0,1,2,199,200,201,202,257,1000}, data seeds, masked self, schedule: up to 8 chunks incl. empty ones, permutation, worker ids, serial/concurrent); non-trivial as above",
           required_labels=["dispatched"]),
@@ -324,6 +348,12 @@ GROUPS = [
           "complete sweep of the %d catalogued element-wise operators of FixedArray2D (Int/Float/Double/Color4f/Color4c) and FixedMatrix (Int/Float/Double) x argument kinds (none / same-shape container / scalar) on generated shapes up to 6x5: every element compared with the scalar operation (C semantics for numbers, the scalar binding for colours), operands untouched, other-shape operands must raise; non-trivial = more than one element" % len(GCAT),
           required_labels=["scalar_oracle_exact", "mismatch_raises", "inplace_operator", "array"], items=grid_items),
 ]
+if RACE_PASS:
+    GROUPS = [
+        Group("concurrent_tsan", None, interp, 0, 0,
+              "race pass: the module and the pool shim are built with -fsanitize=thread; every one of the %d catalogued entry points runs once on 257 elements (thorough: 3 times, on 257 or 1000 elements) under a truly concurrent schedule (3..5 worker threads, 4..7 chunks, chunks of one worker in sequence); ThreadSanitizer halts the interpreter on the first data race between sub-ranges (reported as a violation with the in-flight program), and the result is still compared with the no-pool result and the scalar oracle; non-trivial = dispatched to the pool with >= 2 non-empty chunks" % len(CAT),
+              required_labels=["dispatched", "concurrent"], items=race_items),
+    ]
 
 if __name__ == "__main__":
     sys.exit(Runner("C20", GROUPS).main())
